@@ -292,6 +292,29 @@ pub fn mutations(w: &World, subset: &[usize], honest: &Value) -> Vec<(String, Va
         x["signatures"][j][1][0] = to_jbytes(&w.outsider_vk);
         push(format!("signature[{j}].key:=unregistered key (signature kept)"), x);
     }
+    // a further signature without a further position
+    {
+        let used: Vec<u64> = sigs.iter().flat_map(|e| e[0]["indexes"].as_array().cloned().unwrap_or_default()).filter_map(|i| i.as_u64()).collect();
+        if let Some(free) = (0..w.n as u64).find(|i| !used.contains(i)) {
+            let entry = json!([
+                {"sigma": to_jbytes(&w.outsider_sigma), "indexes": [free], "signer_index": 0},
+                [to_jbytes(&w.outsider_vk), 1u64 << 40]
+            ]);
+            let mut x = honest.clone();
+            x["signatures"].as_array_mut().unwrap().push(entry.clone());
+            push("an unregistered key's valid signature appended, batch path kept".into(), x);
+            let mut x = honest.clone();
+            x["signatures"].as_array_mut().unwrap().insert(0, entry);
+            push("an unregistered key's valid signature prepended, batch path kept".into(), x);
+            for (q, (vk, st)) in w.registered.iter().enumerate() {
+                if !subset.contains(&q) {
+                    let mut x = honest.clone();
+                    x["signatures"].as_array_mut().unwrap().push(json!([w.single(q, &[free as usize]), [to_jbytes(vk), st]]));
+                    push(format!("the valid signature of registered party {q} appended, batch path kept"), x);
+                }
+            }
+        }
+    }
     // designed: an unregistered key's valid signature rides on a registered party's position —
     // the position is stated twice and every path node is supplied twice (one-signer aggregates)
     if sigs.len() == 1 && indices.len() == 1 {
@@ -380,7 +403,7 @@ pub fn sweep_one(n: usize, mask: u32, depth: usize) -> Report {
                 );
             }
         }
-        if n == 3 && subset.len() == 2 && rep.samples.is_empty() {
+        if n == 3 && subset == [0, 2] {
             rep.sample(json!({"part": "stm-aggregate", "kind": "honest aggregate", "n": n, "signers": subset, "batch_path_positions": stated, "batch_path_values": honest["batch_proof"]["values"].as_array().map(|a| a.len())}));
         }
         let singles = mutations(&w, &subset, &honest);
